@@ -18,7 +18,7 @@ cd "$D/verif"
 rc=0
 for p in "$@"; do
   echo "=== $p against patched repo"
-  VERIF_REPO="$D/repo" ./check "$p" --tier "${VERIF_TIER:-quick}" 2>&1 | grep -E "VIOLATION|KNOWN-FINDING|\[check\] (C[0-9]+ ok|no longer checks|failing input)|lake build FAILED" | cut -c1-400
+  VERIF_REPO="$D/repo" ./check "$p" --tier "${VERIF_TIER:-quick}" 2>&1 | tee /tmp/seedrun-last.log | grep -E "VIOLATION|KNOWN-FINDING|\[check\] (C[0-9]+ ok|no longer checks|failing input)|lake build FAILED" | cut -c1-400
   # keep the replay for inspection
   mkdir -p /verif/.build/seedrun-replays
   cp -f replays/$p-* /verif/.build/seedrun-replays/ 2>/dev/null
